@@ -314,13 +314,14 @@ def interleave_same_name(case, rng):
     if pair is None:
         return False
     a, b = pair
-    others = [p for p in en if p is not a and p is not b and last(p) != last(a)]
+    # the parameter in between is a probe argument (it accepts any value: a swap shows as wrong data, not as a refusal)
+    others = [p for p in en if p is not a and p is not b and last(p) != last(a) and p["key"].startswith("pipeline.")
+              and not p.get("multi") and not p.get("width")]
     if not others:
-        k = "detector.characteristics.quantum_efficiency"
-        vals = rng.sample(FIELD_POOL[k], 2)
+        k = a["key"].rsplit(".", 1)[0] + ".z"
+        vals = rng.sample(range(100, 200), 2)
         others = [({"key": k, "decl": "_", "enabled": True, "width": None} if case["mode"] == "custom"
                    else {"key": k, "decl": vals, "expect": vals, "enabled": True, "multi": False})]
-        case["fields"] = sorted(set(case["fields"]) | {k[len("detector."):]})
     x = others[0]
     for p in (a, x, b):
         p["enabled"] = True
